@@ -53,6 +53,7 @@ type Obligation struct {
 	asserts      []*Term
 	assertsFull  []*Term
 	assertsAbs   []*Term
+	pieces       [][]*Term
 	assertsQF    []*Term
 	mterms       []*Term
 	knownFinding bool
@@ -108,12 +109,14 @@ type Engine struct {
 	usedModels  map[string]bool
 	debug       bool
 	pureSeen    map[int]bool
+	pureConst   map[int]*Term
 	pureDepth   int
 	invokeDepth int
 	invokeTrace []string
 	topRets     []retRec
 	tmplFuncs   map[int]*Term
 	callHist    map[string]*Term
+	caseSuffix  string
 	inputs      []*inputNode
 	byteRefs    map[int]bool
 	files       []*ContractFile
@@ -140,6 +143,13 @@ func newEngine(prog *ssa.Program, fset *token.FileSet) *Engine {
 	e.declComp(allocComp, IntS)
 	e.tmplFuncs = map[int]*Term{}
 	e.callHist = map[string]*Term{}
+	e.pureConst = map[int]*Term{}
+	// ghost globals are declared up front: a modifies clause naming one must
+	// havoc it even when nothing has read it yet
+	for n, srt := range map[string]*Sort{"signedBytes": StringS, "signerErr": IfaceS, "compressedInput": StringS,
+		"tarManifestAtClose": StringS, "tarStreamAtClose": StringS, "tarPadAtClose": IntS} {
+		e.declComp("G:"+n, srt)
+	}
 	e.byteRefs = map[int]bool{}
 	registerModels(e)
 	for _, f := range extraModels {
@@ -379,6 +389,16 @@ func (e *Engine) execFunction(fn *ssa.Function, args []*Term, bindings []*Term, 
 			g := e.evalClause(fr, cl, args, nil, s0, s0, pc)
 			e.assume(pc, g)
 			e.note("assumed in contract of " + shortFn(fn) + ": " + cl.Label + ": " + cl.Expr)
+		}
+	}
+	if ct := e.contracts[fnName(fn)]; ct != nil && len(ct.Expects) > 0 && !fr.clause {
+		for _, cl := range ct.Expects {
+			g := e.evalClause(fr, cl, args, nil, s0, s0, pc)
+			if caller == nil {
+				e.assume(pc, g)
+			} else {
+				e.addObl(fr, "requires", shortFn(fn)+"."+cl.Label, cl.Props, pc, g, fmt.Sprintf("%s:%d", strings.TrimPrefix(ct.File, "/repo/"), cl.Line))
+			}
 		}
 	}
 	exits, _ := e.runRegion(fr, fr.rpo, map[*ssa.BasicBlock][]edge{fn.Blocks[0]: {{pc: pc, st: s0}}}, nil)
@@ -689,6 +709,16 @@ func (e *Engine) runLoop(fr *Frame, li *loopInfo, edgesIn []edge) map[*ssa.Basic
 			sb.vals[phi] = e.value(fr, b.st, phi.Edges[idx])
 		}
 		e.checkInvariants(fr, li, invs, sb, b.pc, "inv-step")
+	}
+	// vacuity guard: some iteration of the body can complete under the
+	// invariants (a contradictory precondition or invariant would make every
+	// obligation of the body trivially true)
+	if !fr.clause && e.quiet == 0 && len(backs) > 0 && invs != nil && len(invs.Invs) > 0 {
+		var pcs []*Term
+		for _, b := range backs {
+			pcs = append(pcs, b.pc)
+		}
+		e.addCoverIn(fr, fmt.Sprintf("%s.loop%d-iteration", shortFn(fr.fn), li.ordinal), Or(pcs...))
 	}
 	add(exits)
 	return exitsAcc
@@ -1750,6 +1780,7 @@ func (e *Engine) addOblOne(fr *Frame, kind, label string, props []string, pc, go
 	if ctx != "" {
 		id += " @" + ctx
 	}
+	id += e.caseSuffix
 	if n := e.oblIDs[id]; n > 0 {
 		e.oblIDs[id] = n + 1
 		id = fmt.Sprintf("%s ~%d", id, n)
